@@ -1,6 +1,7 @@
 import Sgz.Proofs.Reader
 import Sgz.Proofs.Coords
 import Sgz.Proofs.Subvolume
+import Sgz.Proofs.Xarray
 /-!
 # C02 — access-path coherence
 
@@ -105,5 +106,22 @@ def gZslice : Geo := { n0 := 70, n1 := 65, n2 := 9, b0 := 64, b1 := 64, b2 := 4,
 def gGeneral : Geo := { n0 := 9, n1 := 17, n2 := 70, b0 := 8, b1 := 16, b2 := 64, u := 32 }
 example : gDefault.Valid ∧ gZslice.Valid ∧ gGeneral.Valid := by decide
 example : (Reader.readZslice gDefault 299 matches .ok _) = true := by decide
+
+/-! ### the xarray backend (Model/Xarray): bounding box + strides = the key -/
+
+/-- along an axis indexed with a slice of positive step (bounds omitted, negative or beyond the axis as Python allows), the
+backend's result holds exactly the positions `range(*slice.indices(n))`: what numpy indexing of the decoded cube selects -/
+theorem xarray_slice_positions (s : Emul.PySlice) (n : Nat) (hs : 0 < s.step.getD 1) :
+    Xarray.axisPositions (.sl s) n = (Emul.sliceIndices s n).map fun (a, b, c) => Emul.pyRange a b c :=
+  Xarray.axisPositions_slice s n hs
+
+/-- an integer key selects that one position, counted from the end when negative -/
+theorem xarray_int_position (k : Int) (n : Nat) :
+    Xarray.axisPositions (.idx k) n = some [if k < 0 then k + (n : Int) else k] :=
+  Xarray.axisPositions_idx k n
+
+example : Xarray.axisPositions (.sl ⟨some (-5), none, some 2⟩) 7 = some [2, 4, 6] := by decide
+example : Xarray.box (.idx (-1)) (.sl ⟨some 1, none, some 2⟩) (.sl ⟨none, none, none⟩) 5 6 7
+    = some (some ((4, 5), (1, 6), (0, 7))) := by decide
 
 end Sgz.Props.C02
